@@ -102,12 +102,14 @@ def stream_ranking(ctx, built=False):
                    "constant column; non-trivial = every table")
     rows = []
     for _ in range(ctx.scale(4, 30)):
-        n = R.choice([1000, 2000]); k = R.choice([2, 3, 4, 5, 8])
+        n = R.choice([1000, 2000]); k = R.choice([2, 3, 4, 5, 6, 7, 8])
         a = [R.randrange(k) for _ in range(n)]
         perm = list(range(k)); R.shuffle(perm)
-        t = {"names": ["a", "b", "c", "u", "z"], "cols": [[float(x) for x in a], [float(perm[x]) for x in a], [float(R.randrange(k)) for _ in range(n)],
-                                                           [float(i % k) for i in range(n)], [3.0] * n],
-             "styles": ["cat", "fn", "cat", "uniform", "const"], "pids": None, "pid_mode": "unique",
+        # g: an independent column of 8 categories spread over many magnitudes (a price list), so that its tree is several levels deeper than a's
+        PR = [0.01, 0.05, 0.25, 1.0, 5.0, 25.0, 100.0, 500.0]
+        t = {"names": ["a", "b", "c", "u", "z", "g"], "cols": [[float(x) for x in a], [float(perm[x]) for x in a], [float(R.randrange(k)) for _ in range(n)],
+                                                           [float(i % k) for i in range(n)], [3.0] * n, [PR[R.randrange(8)] for _ in range(n)]],
+             "styles": ["cat", "fn", "cat", "uniform", "const", "cat-geometric"], "pids": None, "pid_mode": "unique",
              "ap": AnonymizationParams(salt=b"rank-one" if R.random() < 0.6 else R.getrandbits(64).to_bytes(8, "little")), "bp": BucketizationParams(), "n": n}
         F, _ = TS.build_real(t)
         m = measure_all(F); dm, ent = m.dependency_matrix, m.entropy_1dim
@@ -141,6 +143,9 @@ def stream_ranking(ctx, built=False):
             ctx.oracle_fail(f"one-to-one function scores dependence {dm[0,1]:.3f} < 0.6 (k={k}, n={n})", rec,
                             rank_fp(dm[0, 1], k))
         if dm[0, 2] > 0.25: ctx.oracle_fail(f"independent column scores dependence {dm[0,2]:.3f} > 0.25 (k={k}, n={n})", rec, "ranking")
+        rec["dep(a,indep geometric)"] = round(float(dm[0, 5]), 3)
+        if dm[0, 5] > 0.25 or dm[5, 0] > 0.25:
+            ctx.oracle_fail(f"independent column of 8 categories spread over five magnitudes scores dependence {dm[0,5]:.3f} > 0.25 with a {k}-category column (n={n})", rec, "ranking")
         if abs(ent[3] - math.log2(k)) > 0.15: ctx.oracle_fail(f"uniform {k}-category column has entropy {ent[3]:.3f}, log2 k = {math.log2(k):.3f}", rec, "ranking")
         if abs(ent[4]) > 1e-12: ctx.oracle_fail(f"constant column has entropy {ent[4]}", rec, "ranking")
     ctx.extra["support_ranking (statistical, not a proof)"] = rows[:6]
